@@ -35,7 +35,7 @@ GEN_RELEVANT = {
     "C01": r"^(enc_|cmd_flag|cmd_short|cmd_long|cmd_nlen|cmd_vlen|gr_len|gr_sig|gr_major_off|gr_minor_off|gr_mech_off|gr_server_off|gr_default)",
     "C02": _DEC, "C03": _DEC[:-1] + r"|matrix|sub_replay_unwraps)",
     "C04": r"^(matrix|max_id|id_guard|version_cmp|gr_parse|gr_default|cmd_parse)",
-    "C07": r"^(req_min|rep_min|rep_rejects)", "C08": r"^(req_min|rep_min|req_recv)", "C09": r"^(max_id)",
+    "C07": r"^(req_min|rep_min|rep_rejects)", "C08": r"^(req_min|rep_min|req_recv)", "C09": r"^(max_id)", "C10": r"^(rr_)",
     "C11": r"^(pub_|xpub_|sub_op)", "C12": r"^(hwm)", "C13": r"^(sub_)", "C14": r"^(req_recv)", "C06": r"^(fq_)",
     "C16": r"^(rep_disconnect|sub_disconnect|dealer_error|router_send_error|rep_send_error|req_send_error|req_recv_error)",
     "C20": r"^(tcp_accept|ipc_accept)",
